@@ -190,6 +190,22 @@ class RuleTable:
                         return None
                     out.extend(sub_)
                 return out
+            if fr is not None and fr.qual == "builtins.enumerate" and 1 <= len(it.args) <= 2:
+                sub_ = self._literal_elts(m, it.args[0], env)
+                start = it.args[1].value if len(it.args) == 2 and isinstance(it.args[1], ast.Constant) and type(it.args[1].value) is int else (0 if len(it.args) == 1 else None)
+                if sub_ is None or start is None:
+                    return None
+                out = []
+                for i_, e_ in enumerate(sub_, start):
+                    if isinstance(e_, _Foreign):
+                        return None
+                    out.append(ast.Tuple(elts=[ast.Constant(value=i_), e_], ctx=ast.Load()))
+                return out
+            if fr is not None and fr.qual == "builtins.zip" and len(it.args) >= 2:
+                cols = [self._literal_elts(m, a, env) for a in it.args]
+                if any(c_ is None or any(isinstance(x_, _Foreign) for x_ in c_) for c_ in cols):
+                    return None
+                return [ast.Tuple(elts=list(row), ctx=ast.Load()) for row in zip(*cols)]
             if fr is not None and fr.qual in ("builtins.list", "builtins.tuple", "builtins.sorted", "builtins.reversed") and len(it.args) == 1:
                 sub_ = self._literal_elts(m, it.args[0], env)
                 if sub_ is None:
@@ -255,7 +271,7 @@ class RuleTable:
             self.notrace.setdefault(t.qual, []).append((p, m, c))
             return
         if isinstance(f, ast.Attribute) and f.attr == "register":
-            cls = self.repo.resolve_expr(m, f.value)
+            cls = self._resolve(m, f.value, env)
             if cls is not None and cls.kind == "repo" and cls.okind == "class":
                 mro = class_mro(self.repo, cls)
                 quals = [k.qual for k in mro]
@@ -263,6 +279,12 @@ class RuleTable:
                 if isinstance(arg0, _Foreign):
                     arg0 = arg0.expr
                 tref = self._resolve(m, c.args[0], env) if c.args else None
+                if tref is not None and tref.kind == "classattr" and isinstance(tref.node, ast.expr):
+                    # Cls.register(Cls.seq_type): the registered type is the value of the class attribute
+                    inner_ = self.repo.resolve_expr(tref.mod, tref.node)
+                    if inner_ is not None:
+                        tref = inner_
+                        arg0 = tref.node if False else arg0
                 if "autograd.tracer.Box" in quals:
                     self.sites += 1
                     self.box_reg.append((cls.qual, norm_text(arg0), tref, m, c))
